@@ -20,7 +20,7 @@ Your task: write ONE small, realistic change to the library's non-test source co
   (3) the breakage does NOT show up at once under ordinary use: it should need something specific to manifest — a particular interleaving, a fault at a particular point, a multi-step sequence of operations, an unusual input, or a combination of options. Avoid changes that any simple smoke test would catch.
 Do not touch files named verif_*.go and do not remove the calls to verifPoint/verifNodePoint (they are inert instrumentation).
 
-Then write a demonstration: a new Go test file in the worktree (e.g. seeded_demo_test.go in the package concerned, package-internal tests are fine) with one test that FAILS with your change applied and PASSES on the original code (verify both: `git stash` your source change, run the demo test, `git stash pop`, run again). The demo may use sleeps/loops to provoke the interleaving but should be reasonably reliable (fails at least 4 of 5 runs with the change).
+Then write a demonstration: a new Go test file in the worktree (e.g. seeded_demo_test.go in the package concerned, package-internal tests are fine) with one test that FAILS with your change applied and PASSES on the original code (verify both WITHOUT `git stash` — the stash is shared between worktrees and other agents use it: save your change with `git diff -- . ":!*_demo_test.go" > SEED/patch.diff`, undo it with `git apply -R SEED/patch.diff`, run the demo test, re-apply with `git apply SEED/patch.diff`, run again; at the end check that `git diff` shows only your own change). The demo may use sleeps/loops to provoke the interleaving but should be reasonably reliable (fails at least 4 of 5 runs with the change).
 
 Deliverables, all inside {wt}/SEED/ :
   patch.diff   — `git diff` of the source change only (not the demo test)
